@@ -148,7 +148,7 @@ func gsFindMethod(p *packages.Package, recv, name string) *ast.FuncDecl {
 }
 
 func gsIDCounter(t *tr, b *strings.Builder) {
-	bp := load("github.com/yandex/pandora/components/providers/base")
+	bp := grpcstatusLoad("github.com/yandex/pandora/components/providers/base")
 	obj := bp.Types.Scope().Lookup("ProviderBase")
 	var field *types.Var
 	if obj != nil {
@@ -790,7 +790,7 @@ func gsSlices(t *tr, b *strings.Builder) {
 			if sp.pkg == t.pkg.PkgPath {
 				p = t.pkg
 			} else {
-				p = load(sp.pkg)
+				p = grpcstatusLoad(sp.pkg)
 			}
 			cache[sp.pkg] = p
 		}
